@@ -25,6 +25,33 @@ CLAIMED = {
  "C19": ("M+R: TLC model check of comp/ExecGraph.tla over all small clusters; StreamContext::verif_execution_graph dumps of every host judged by TLC (GraphProps.tla)",
          "the scheduler rules as coded are model checked for every cluster up to MaxHosts x MaxCores and every replication requirement; for hundreds of (program, cluster) pairs the graph and address map derived by EVERY host of the real scheduler are checked by TLC against the property's rules and against each other",
          "the dump hook runs build_execution_graph + topology.build exactly as start_blocking does, without starting workers", "4-C19"),
+ "C04": ("T: generated jobs (loops, side inputs, diamonds, empty and oversized inputs, tiny batches) under a watchdog; Link.tla leaves nothing in flight; each sink completes exactly once",
+         "hundreds of jobs per run with inputs far above the channel capacities, Single/Fixed(1)/adaptive batching, local and multi-host layouts, seeded schedule perturbation; a job without progress for 12 s is a hang; TLC validates every link history to be empty at the end",
+         "absence of deadlock for all schedules rests on sampled schedules plus the small-scope models (sys/); a hang verdict needs 12 s without any hook event", "4-C04"),
+ "C07": ("D: every aggregation API on varied key distributions; sink bags compared by TLC with SeqSemantics!Eval (KeyedFold, GlobalFold, two-phase forms)",
+         "TLC evaluates the sequential fold per key for each generated program (all 14 aggregation forms, skewed/single/many keys, empty input, pipelines before/after) and compares the sink bag of every run under the configuration matrix",
+         "associative-commutative aggregation functions from the fixed family; avg on dyadic-friendly values", "4-C07"),
+ "C08": ("D: joins (ship hash|broadcast x local hash|sort-merge x inner|left|outer, keyed join) compared by TLC with the relational join of SeqSemantics.tla under schedule perturbation",
+         "TLC computes the relational join (inner pairs + padding) of the two input multisets and compares the sink bag for duplicate keys, one-sided keys, empty sides, all configurations; arrival orders vary by seeded perturbation",
+         "interleavings of the two sides are sampled (perturbation), not enumerated", "4-C08"),
+ "C09": ("D: split/route/merge/zip programs (diamonds, per-branch sinks) compared by TLC with SeqSemantics!Eval; broadcast fan-out by Routing.tla (C03)",
+         "every branch of split sees the whole stream, route is first-match, merge is bag union, zip is positional on sequential inputs and min(|a|,|b|) otherwise: computed by TLC and compared per sink",
+         "zip positional only where both producers are sequential", "4-C09"),
+ "C10": ("D: replay/iterate programs (shuffles, aggregations, nesting) compared by TLC with SeqSemantics!LoopRun (state sequence, final state, iterate output)",
+         "TLC runs the loop sequentially (state after round k = global fold of local folds, stop on condition or bound, replay re-feeds, iterate feeds back) and compares final state and output of every run, under perturbation and multi-host layouts",
+         "per-round state reads are not yet compared (final results only)", "4-C10"),
+ "C11": ("D: loops whose body joins/merges an outside stream; results compared by TLC with the sequential loop semantics (side input complete and identical every round)",
+         "a side input that is incomplete, duplicated or different in some round changes the loop state or output that TLC computes; jobs run under adaptive batching with short delays (receive timeouts), several layouts and perturbation",
+         "the per-round multiset seen inside the body is observed through its effect on state/output", "4-C11"),
+ "C16": ("D+T: single-replica chains under every batch mode compared AS SEQUENCES by TLC with Eval; link FIFO by Link.tla",
+         "sequential pipelines of length 1..6 with up to 1500 (thorough 5000) elements, all batch modes: the sink sequence must equal the iterator-chain meaning computed by TLC",
+         "reorder() is covered by the C06/C13 component checks", "4-C16"),
+ "C18": ("T: streaming jobs fed through a channel source with a long idle period; Latency.tla judges the order of fed/arrive/close events; Link.tla shows nothing pending at the end",
+         "for adaptive batching every element fed before the idle period must have left the sink before the source is closed (idle 2.5 s vs 20 ms max delay, depth 1..3, parallelism 1..3); for every mode everything is delivered by the end of the iteration",
+         "verdict by event order only; the idle period is two orders of magnitude above depth x delay", "4-C18"),
+ "C20": ("fault enumeration + T: panic injected at enumerated (operator, replica, element) points of acyclic jobs; CrashCheck.tla judges hosts' outcomes and sinks against the execution graph",
+         "for each crash point: execute_blocking must fail on the host of the failed replica and on every host running a downstream block, no StreamOutput sink fed from the failed block or downstream may publish, and every worker thread must unwind within 6 s",
+         "collect_channel / for_each stream by contract and are excluded; downstream = reachability in the dumped execution graph", "4-C20"),
 }
 
 def main():
